@@ -1,0 +1,17 @@
+//go:build verif
+
+package parser
+
+import "github.com/verily-src/fhirpath-go/fhirpath/internal/expr"
+
+// VerifWrap, when non-nil, is applied to every expression node the visitor
+// produces, before the visitor's own Transform. Only present in builds with the
+// "verif" tag; nil means identity.
+var VerifWrap func(expr.Expression) expr.Expression
+
+func verifWrap(e expr.Expression) expr.Expression {
+	if VerifWrap == nil || e == nil {
+		return e
+	}
+	return VerifWrap(e)
+}
